@@ -176,6 +176,10 @@ class ExprMixin:
             gh = self.ghost_attr(v, name, st)
             if gh is not None:
                 return [Ev(st, gh)]
+            if h.get("__partial__"):
+                # the object was set up by a contract with the fields the contract knows: an unknown field means the
+                # code now keeps state the contract does not describe - out of reach, not an AttributeError
+                raise OutOfReach("field %s.%s is not part of the contract's object model (contract needs re-anchoring)" % (v.cls, name))
             return [self.raise_(st, "AttributeError", "%s.%s" % (v.cls, name))]
         if isinstance(v, ModuleV):
             return [Ev(st, self.module_attr(v, name, st))]
